@@ -293,6 +293,9 @@ def check_property(pid, tier, seed):
     if not proofs_ok and tier == "quick":
         # a proof obligation broke: when the quick search shows no failing input, look harder for one
         hot = [f for f in (stats.get("findings") or []) if f["kind"] not in ("infra",)]
+        if not hot and not mism and hasattr(extra, "phase_" + pid):
+            # the property-specific phase (configurations, machine-model predictions, ...) searches too
+            hot = getattr(extra, "phase_" + pid)(tier, seed, st, stats)[1]
         if not hot and not mism:
             search_tier = "thorough"
             log("%s: proof obligations do not check and the quick search found nothing; searching at thorough budget" % pid)
@@ -480,6 +483,16 @@ def do_replay(path):
         m = vlib.model_on([case])[0]
         print("implementation: strcase=%s bytcase=%s | extracted Spec=%s | Go reference=%s"
               % (obs.get("strcase"), obs.get("bytcase"), m.get("S"), obs.get("ref")))
+    elif case and case.startswith("k."):
+        # a kernel case: both entry points, under the GODEBUG setting the violation names (if any)
+        build_all()
+        env = dict(os.environ)
+        if v.get("godebug"):
+            env["GODEBUG"] = v["godebug"]
+        rc, out, _ = run([os.path.join(BUILD, "bin", "harness"), "-replay", case], env=env, timeout=60)
+        m = vlib.model_on([case, "x." + case[2:]])
+        print("kernel (GODEBUG=%s): %s | scalar definition (extracted Spec)=%s | x86 machine model on the translated assembly: %s"
+              % (v.get("godebug", ""), out.strip(), m[0].get("S"), m[1].get("I")))
     return 0
 
 
